@@ -21,6 +21,10 @@ import (
 // content was produced by the engine's own fork bookkeeping: blocks A and B are two children of genesis (same height,
 // so B stays a side fork and saveNewBlock hands B's transactions back to the pool); then the node, which is the deputy
 // in turn, mines on its head A.  Logged: what it packaged and how often each payload has taken effect in its own state.
+// Further scenarios fill the pool through the admission route of PublicTxAPI.SendTx / ProtocolManager.handleTxsMsg, whose three
+// lines (VerifyTxBody; not TxGuard.ExistTx on the head => TxPool.AddTx) are reproduced here: transactions arrive from the wire
+// (RLP) or from the RPC (the JSON of the whole transaction).  Blocks and arriving transactions come in the carrier encodings of
+// txguard/carrier.go (every encoding in every role).
 //
 // MineBlock stamps the block with the wall clock, so the chain is laid out relative to a clock read ONCE: genesis =
 // now-600 s, slot length 100000 s (the node's slot after A lasts from genesis to genesis+100000 s), expirations =
@@ -54,20 +58,43 @@ func driveMine(args []string) error {
 	for _, id := range u.IDs {
 		exp[id] = u.Exp[id] - int64(g)
 	}
-	// scenarios: transactions of A (the head), of B (the side fork)
-	scen := [][2][]string{
-		{{"t"}, {"t"}},      // t is on the head's branch AND comes back from the side fork
-		{{}, {"t"}},         // t only on the side fork: mining it on the head's branch is right
-		{{"t"}, {"u"}},      // an unrelated tx comes back
-		{{"b"}, {"t"}},      // t is on the branch inside a box, comes back standalone
-		{{"t"}, {"bu"}},     // comes back inside a box
-		{{"t", "u"}, {"u"}}, // several on the branch
+	// scenarios: transactions of A (the head), of B (the side fork; nil = no such block), then arrivals; each with its carrier encoding
+	type arrival struct {
+		ids       []string
+		enc, form string
+	}
+	type scenario struct {
+		a, b   []string
+		ea, eb string
+		adm    []arrival
+	}
+	c := txguard.Canon
+	scen := []scenario{
+		{a: []string{"t"}, b: []string{"t"}, ea: c, eb: c},      // t is on the head's branch AND comes back from the side fork
+		{a: []string{}, b: []string{"t"}, ea: c, eb: c},         // t only on the side fork: mining it on the head's branch is right
+		{a: []string{"t"}, b: []string{"u"}, ea: c, eb: c},      // an unrelated tx comes back
+		{a: []string{"b"}, b: []string{"t"}, ea: c, eb: c},      // t is on the branch inside a box, comes back standalone
+		{a: []string{"t"}, b: []string{"bu"}, ea: c, eb: c},     // comes back inside a box
+		{a: []string{"t", "u"}, b: []string{"u"}, ea: c, eb: c}, // several on the branch
+		{a: []string{"t"}, ea: c, adm: []arrival{{[]string{"t", "u"}, c, "wire"}}},           // arrivals: t is on the branch, u is new
+		{a: []string{}, ea: c, adm: []arrival{{[]string{"b"}, c, "wire"}, {[]string{"w", "t"}, c, "rpc"}}}, // the pool's own index: one t in two boxes and alone
+	}
+	for _, e := range txguard.AllEncs {
+		if e == c {
+			continue
+		}
+		scen = append(scen,
+			scenario{a: []string{"t"}, b: []string{"b"}, ea: c, eb: e},                                                    // comes back inside a box written in e
+			scenario{a: []string{"b"}, b: []string{"w", "u"}, ea: e, eb: e},                                               // on the branch inside a box written in e
+			scenario{a: []string{"bu"}, ea: e, adm: []arrival{{[]string{"t"}, e, "rpc"}, {[]string{"u"}, e, "wire"}}},   // arrives alone, its JSON written in e
+			scenario{a: []string{"t"}, ea: c, adm: []arrival{{[]string{"w"}, e, "wire"}, {[]string{"u"}, c, "rpc"}}},    // arrives inside a box written in e
+			scenario{a: []string{}, ea: c, adm: []arrival{{[]string{"b"}, e, "rpc"}, {[]string{"w"}, e, "wire"}, {[]string{"t"}, e, "rpc"}}}) // pool index
 	}
 	lines := 0
 	emit := func(fl engine.Fields) error { lines++; return enc.Encode(fl) }
 	for si, sc := range scen {
 		nut := OpenNUT(w, filepath.Join(dir, fmt.Sprintf("nut%d", si)))
-		fl := engine.Fields{"ev": "reset", "beh": si, "step": 0, "exp": exp, "subs": u.Subs, "payload": u.Payload, "life": params.MaxTxLifeTime,
+		fl := engine.Fields{"ev": "reset", "beh": si, "step": 0, "exp": exp, "subs": u.Subs, "payload": u.Payload, "how": u.How, "life": params.MaxTxLifeTime,
 			"cnt": Counts(nut.DB, builder.Genesis.Hash()), "stable": 1, "head": 1, "driver": "replayprot-mine"}
 		if err := emit(fl); err != nil {
 			return err
@@ -81,14 +108,24 @@ func driveMine(args []string) error {
 			}
 			return -1
 		}
-		for k, ids := range sc {
-			blk, invalid, err := builder.Build(builder.Genesis, 0, 0, u.Txs(ids), fmt.Sprintf("mine-%d-%d", si, k))
+		step := 0
+		for k, ids := range [][]string{sc.a, sc.b} {
+			if ids == nil {
+				continue
+			}
+			enc := []string{sc.ea, sc.eb}[k]
+			blk, invalid, err := builder.Build(builder.Genesis, 0, 0, u.Carried(ids, enc), fmt.Sprintf("mine-%d-%d", si, k))
 			if err != nil {
 				return fmt.Errorf("build: %v", err)
 			}
 			blocks = append(blocks, blk)
-			ierr := nut.BC.InsertBlock(node.Copy(blk, nil))
-			fl := engine.Fields{"ev": "Offer", "beh": si, "step": k + 1, "a": []interface{}{1, 0, ids}, "id": len(blocks),
+			off, crafted := node.Copy(blk, nil), false
+			if enc != txguard.Canon {
+				off, crafted = Craft(u, blk, u.Carried(ids, enc))
+			}
+			ierr := nut.BC.InsertBlock(off)
+			step++
+			fl := engine.Fields{"ev": "Offer", "beh": si, "step": step, "a": []interface{}{1, 0, ids, enc}, "id": len(blocks), "crafted": crafted,
 				"got": IDs(u, blk.Txs), "discarded": IDs(u, invalid), "mcnt": Counts(builder.DB, blk.Hash()), "ok": ierr == nil,
 				"stable": idOf(nut.BC.StableBlock()), "head": idOf(nut.BC.CurrentBlock())}
 			if ierr == nil {
@@ -100,6 +137,28 @@ func driveMine(args []string) error {
 				return err
 			}
 		}
+		for ai, ar := range sc.adm {
+			// PublicTxAPI.SendTx (form rpc: the transaction decoded from its JSON) / handleTxsMsg (form wire: decoded from RLP)
+			var res []string
+			for ti, tx := range u.Carried(ar.ids, ar.enc) {
+				if ar.form == "rpc" {
+					tx = txguard.ViaJSON(tx, ar.enc, fmt.Sprintf("adm-%d-%d-%d", si, ai, ti), u.Cross)
+				}
+				if err := tx.VerifyTxBody(node.ChainID, uint64(time.Now().Unix()), false); err != nil {
+					res = append(res, "invalid: "+err.Error())
+				} else if nut.BC.TxGuard().ExistTx(nut.BC.CurrentBlock().Hash(), tx) {
+					res = append(res, "exists")
+				} else if err := nut.Pool.AddTx(tx); err != nil {
+					res = append(res, "pool: "+err.Error())
+				} else {
+					res = append(res, "added")
+				}
+			}
+			step++
+			if err := emit(engine.Fields{"ev": "Admit", "beh": si, "step": step, "a": []interface{}{ar.ids, ar.enc, ar.form}, "res": res}); err != nil {
+				return err
+			}
+		}
 		head := nut.BC.CurrentBlock()
 		nut.BC.MineBlock(2000)
 		mined := nut.BC.CurrentBlock()
@@ -107,7 +166,7 @@ func driveMine(args []string) error {
 			return fmt.Errorf("scenario %d: the node did not mine on its head (head %s, now %s)", si, head.ShortString(), mined.ShortString())
 		}
 		blocks = append(blocks, mined)
-		fl = engine.Fields{"ev": "Mined", "beh": si, "step": 3, "p": idOf(head), "tm": int64(mined.Time()) - int64(g), "id": len(blocks),
+		fl = engine.Fields{"ev": "Mined", "beh": si, "step": step + 1, "p": idOf(head), "tm": int64(mined.Time()) - int64(g), "id": len(blocks),
 			"got": IDs(u, mined.Txs), "cnt": Counts(nut.DB, mined.Hash()), "head": idOf(nut.BC.CurrentBlock()), "stable": idOf(nut.BC.StableBlock())}
 		if err := emit(fl); err != nil {
 			return err
